@@ -9,7 +9,7 @@ TRUSTED_ALWAYS = [
 
 ASSUMPTIONS = {
     "P-refine": "P-refine (assumed at the algebra layer, hypothesis of C05; polyhedral proof: C04 obligations): elim_vars_by_refining returns R with context&R => self (or raises ValueError); vars(R) within vars(self)+vars(context)",
-    "P-relax": "P-relax (assumed at the algebra layer, hypothesis of C05; polyhedral proof: C04 obligations): elim_vars_by_relaxing returns R with context&self => R (or raises ValueError); vars(R) within vars(self)+vars(context)",
+    "P-relax": "P-relax (assumed at the algebra layer, hypothesis of C05; polyhedral proof: C04 obligations): elim_vars_by_relaxing returns R with context&self => R (or raises ValueError); vars(R) within vars(self)+vars(context); with nothing to eliminate and simplify=False, R has the terms of self (P-relax.identity; polyhedral proof: C15.elim_vars_by_relaxing.nothing_to_eliminate_*)",
     "P-simplify": "P-simplify (assumed at the algebra layer, hypothesis of C05; polyhedral proof: C07 obligations): simplify returns a sub-list equivalent to self wherever the context holds, ValueError only if infeasible in context",
     "P-simplify (C07)": "P-simplify at call sites inside the elimination functions (proved by the C07 obligations)",
     "P-refines": "P-refines (assumed at the algebra layer): refines answers True only for containment",
